@@ -292,6 +292,7 @@ def subst1 (r : Rule) (g : Glyph) : Option (List Glyph) :=
   match r with
   | .single (.g t) (.g x) => if g = t then some [x] else none
   | .single (.c ts) (.g x) => if ts.contains g then some [x] else none
+  | .single (.c ts) (.c [x]) => if ts.contains g then some [x] else none
   | .single (.c ts) (.c xs) => ((indexOf? ts g).bind (xs[·]?)).map ([·])
   | .multiple t xs => if g = t then some xs else none
   | _ => none
@@ -855,5 +856,903 @@ def shape (t : OT.Tables) (script lang : Tag) (feats : List Tag) (alt : Nat) (s 
     (fun s i => match t.gsub.lookups[i]? with | some l => OT.applyGsub t alt l s | none => s) s
   (OT.activeLookups t.gpos script lang feats).foldl
     (fun s i => match t.gpos.lookups[i]? with | some l => OT.applyGpos t l s | none => s) (glyphs.map (·, Value.zero))
+
+
+/-! ## 5. What fea-rs builds -/
+
+namespace Cmp
+
+/-- `BTreeMap<GlyphId16, β>` as an association list sorted by key; `insert` overwrites. -/
+def mapInsert {β : Type} (k : Glyph) (v : β) : List (Glyph × β) → List (Glyph × β)
+  | [] => [(k, v)]
+  | (k', v') :: rest =>
+    if k < k' then (k, v) :: (k', v') :: rest
+    else if k = k' then (k, v) :: rest
+    else (k', v') :: mapInsert k v rest
+
+/-- `entry(k).or_insert(v)` -/
+def mapInsertIfAbsent {β : Type} (k : Glyph) (v : β) (m : List (Glyph × β)) : List (Glyph × β) :=
+  match m.lookup k with
+  | some _ => m
+  | none => mapInsert k v m
+
+/-- `entry(k).or_default()` then modify -/
+def mapUpdate {β : Type} (k : Glyph) (dflt : β) (f : β → β) (m : List (Glyph × β)) : List (Glyph × β) :=
+  mapInsert k (f ((m.lookup k).getD dflt)) m
+
+inductive LookupId where
+  | gpos (i : Nat)
+  | gsub (i : Nat)
+  | empty
+  deriving DecidableEq, Repr, Inhabited
+
+/-- compiled lookup flag: `LookupFlag` bits and the mark filtering set id -/
+abbrev CFlag := Nat × Option Nat
+
+/-- `LigatureSubBuilder`: first glyph ↦ `(remaining components, ligature)` in insertion order -/
+abbrev LigMap := List (Glyph × List (List Glyph × Glyph))
+
+/-- `LigatureSubBuilder::can_add` (lookups.rs:1319, gsub/builders.rs `can_add`) -/
+def ligCanAdd (m : LigMap) (seq : List Glyph) (r : Glyph) : Bool :=
+  match seq with
+  | [] => false
+  | first :: rest =>
+    match m.lookup first with
+    | some ligs => !(ligs.any fun (s, t) => s == rest && t != r)
+    | none => true
+
+/-- `LigatureSubBuilder::insert`: identical rules are not repeated -/
+def ligInsert (m : LigMap) (seq : List Glyph) (r : Glyph) : LigMap :=
+  match seq with
+  | [] => m
+  | first :: rest =>
+    mapUpdate first [] (fun ligs => if ligs.any (fun (s, t) => s == rest && t == r) then ligs else ligs ++ [(rest, r)]) m
+
+/-- anonymous lookups of a contextual lookup (`ContextualLookupBuilder::current_anon_lookups`) -/
+inductive Anon where
+  | single (m : List (Glyph × Glyph))
+  | multiple (m : List (Glyph × List Glyph))
+  | ligature (m : LigMap)
+  deriving DecidableEq, Repr, Inhabited
+
+/-- `ContextRule` (contextual.rs:294): backtrack nearest first -/
+structure CRule where
+  back : List GC
+  input : List (GC × List LookupId)
+  look : List GC
+  deriving DecidableEq, Repr, Inhabited
+
+/-- one class-pair subtable under construction (`ClassPairPosSubtable`) -/
+structure ClassSub where
+  /-- `(class1, class2, value)` in insertion order; a repeated class pair overwrites -/
+  items : List (List Glyph × List Glyph × Value) := []
+  cd1 : List (List Glyph) := []
+  cd2 : List (List Glyph) := []
+  deriving DecidableEq, Repr, Inhabited
+
+inductive Builder where
+  | single (m : List (Glyph × Glyph))
+  | multiple (m : List (Glyph × List Glyph))
+  | alternate (m : List (Glyph × List Glyph))
+  | ligature (m : LigMap)
+  | chain (rules : List CRule) (anon : List Anon)
+  | spos (m : List (Glyph × Value))
+  | ppos (pairs : List (Glyph × List (Glyph × Value))) (classes : List ClassSub)
+  deriving DecidableEq, Repr, Inhabited
+
+def Builder.kind : Builder → Kind
+  | .single _ => .single
+  | .multiple _ => .multiple
+  | .alternate _ => .alternate
+  | .ligature _ => .ligature
+  | .chain .. => .chain
+  | .spos _ => .spos
+  | .ppos .. => .ppos
+
+def Builder.new : Kind → Builder
+  | .single => .single []
+  | .multiple => .multiple []
+  | .alternate => .alternate []
+  | .ligature => .ligature []
+  | .chain => .chain [] []
+  | .spos => .spos []
+  | .ppos => .ppos [] []
+
+/-! ### building tables from builders (write-fonts builders) -/
+
+/-- stable insertion sort, longer component lists first (gsub/builders.rs `LigatureSubBuilder::build`) -/
+def insertLig (x : List Glyph × Glyph) : List (List Glyph × Glyph) → List (List Glyph × Glyph)
+  | [] => [x]
+  | y :: ys => if y.1.length < x.1.length then x :: y :: ys else y :: insertLig x ys
+
+def sortLigs (ligs : List (List Glyph × Glyph)) : List (List Glyph × Glyph) := ligs.foldr insertLig []
+
+def buildLig (m : LigMap) : OT.Subtable :=
+  .ligature (m.map fun (g, ligs) => (g, (sortLigs ligs).map fun (comps, lig) => (lig, comps)))
+
+def sortedSet (xs : List Glyph) : List Glyph := OT.sortDedup xs
+
+def buildAnon : Anon → OT.Subtable
+  | .single m => .single m
+  | .multiple m => .multiple m
+  | .ligature m => buildLig m
+
+def LookupId.gsubIdx : LookupId → Nat
+  | .gsub i => i
+  | _ => 0
+
+def CRule.recs (r : CRule) : List (Nat × Nat) :=
+  (r.input.zipIdx.flatMap fun ((_, ls), i) => ls.map fun l => (i, l.gsubIdx))
+
+/-- contextual rules are written as format 3 subtables, one per rule (fea-rs picks the smallest of
+    the possible formats; the choice does not change what the lookup does) -/
+def buildCRule (r : CRule) : OT.Subtable :=
+  .chain3 (r.back.map fun c => sortedSet c.glyphs) (r.input.map fun c => sortedSet c.1.glyphs)
+    (r.look.map fun c => sortedSet c.glyphs) r.recs
+
+/-- class ids as `ClassDefBuilder::build_with_mapping` assigns them: larger classes first, then by
+    smallest glyph -/
+def classBefore (a b : List Glyph) : Bool :=
+  a.length > b.length || (a.length == b.length && a.headD 0 < b.headD 0)
+
+def insertClass (x : List Glyph) : List (List Glyph) → List (List Glyph)
+  | [] => [x]
+  | y :: ys => if classBefore x y then x :: y :: ys else if x == y then y :: ys else y :: insertClass x ys
+
+def sortClasses (cs : List (List Glyph)) : List (List Glyph) := cs.foldr insertClass []
+
+def classId (sorted : List (List Glyph)) (base : Nat) (c : List Glyph) : Nat :=
+  base + (sorted.idxOf c)
+
+def classDefOf (sorted : List (List Glyph)) (base : Nat) : OT.ClassDef :=
+  (sorted.zipIdx.flatMap fun (c, i) => c.map fun g => (g, base + i)).mergeSort (fun a b => a.1 ≤ b.1)
+    |>.filter (·.2 != 0)
+
+def buildClassSub (s : ClassSub) : OT.Subtable :=
+  let c1 := sortClasses s.cd1
+  let c2 := sortClasses s.cd2
+  let rows := c1.map fun a =>
+    (List.range (c2.length + 1)).map fun j =>
+      match s.items.find? fun (x, y, _) => x == a && classId c2 1 y == j with
+      | some (_, _, v) => (v, Value.zero)
+      | none => (Value.zero, Value.zero)
+  .ppos2 4 0 (sortedSet (s.cd1.flatMap id)) (classDefOf c1 0) (classDefOf c2 1) rows
+
+def buildSubtables : Builder → List OT.Subtable
+  | .single m => if m.isEmpty then [] else [.single m]
+  | .multiple m => [.multiple m]
+  | .alternate m => [.alternate m]
+  | .ligature m => if m.isEmpty then [] else [buildLig m]
+  | .chain rules _ => rules.map buildCRule
+  | .spos m => if m.isEmpty then [] else [.spos m]
+  | .ppos pairs classes =>
+    (if pairs.isEmpty then [] else [.ppos1 4 0 (pairs.map fun (g, set) => (g, set.map fun (g2, v) => (g2, v, Value.zero)))])
+    ++ classes.map buildClassSub
+
+def gsubType : Kind → Nat
+  | .single => 1 | .multiple => 2 | .alternate => 3 | .ligature => 4 | .chain => 6 | .spos => 1 | .ppos => 2
+
+/-- a contextual lookup none of whose rules has backtrack or lookahead is written as type 5
+    (`ChainOrNot::Context`, contextual.rs:93) -/
+def lookupType : Builder → Nat
+  | .chain rules _ => if rules.all fun r => r.back.isEmpty && r.look.isEmpty then 5 else 6
+  | b => gsubType b.kind
+
+def buildLookup (f : CFlag) (b : Builder) : OT.Lookup :=
+  ⟨lookupType b, f.1, f.2, buildSubtables b⟩
+
+def buildAnonLookup (f : CFlag) (a : Anon) : OT.Lookup :=
+  ⟨match a with | .single _ => 1 | .multiple _ => 2 | .ligature _ => 4, f.1, f.2, [buildAnon a]⟩
+
+/-! ### `ActiveFeature` (features.rs:341) -/
+
+abbrev Sys := Tag × Tag   -- (script, language)
+
+structure Active where
+  tag : Tag
+  defaults : List Sys
+  curSys : Option Sys := none
+  lookups : List (Sys × List LookupId) := []
+  scriptDefault : List (Tag × List LookupId) := []
+  deriving Repr, Inhabited
+
+def assocGet {α β : Type} [BEq α] (k : α) (m : List (α × β)) : Option β := m.lookup k
+
+def assocPush {α β : Type} [BEq α] (k : α) (v : β) (m : List (α × List β)) : List (α × List β) :=
+  if m.any (·.1 == k) then m.map fun (k', vs) => if k' == k then (k', vs ++ [v]) else (k', vs)
+  else m ++ [(k, [v])]
+
+/-- `ActiveFeature::add_lookup` -/
+def Active.addLookup (a : Active) (id : LookupId) : Active :=
+  match a.curSys with
+  | some (s, l) =>
+    if l == "dflt" then { a with scriptDefault := assocPush s id a.scriptDefault }
+    else { a with lookups := assocPush (s, l) id a.lookups }
+  | none => { a with lookups := assocPush ("DFLT", "dflt") id a.lookups }
+
+/-- `ActiveFeature::set_system` -/
+def Active.setSystem (a : Active) (sys : Sys) (excludeDflt : Bool) : Active :=
+  let a :=
+    if sys.2 != "dflt" then
+      let ls : List LookupId :=
+        if excludeDflt then []
+        else
+          (if a.defaults.contains sys || (a.defaults.contains (sys.1, "dflt") && (a.scriptDefault.any (·.1 == sys.1)))
+           then (assocGet ("DFLT", "dflt") a.lookups).getD [] else [])
+          ++ (assocGet sys.1 a.scriptDefault).getD []
+      if a.lookups.any (·.1 == sys) then a else { a with lookups := a.lookups ++ [(sys, ls)] }
+    else a
+  { a with curSys := some sys }
+
+/-- the `(system, lookups)` pairs `ActiveFeature::add_to_features` appends to the feature map -/
+def Active.finish (a : Active) : List (Sys × List LookupId) :=
+  let defaults := (assocGet ("DFLT", "dflt") a.lookups).getD []
+  let ls := a.lookups.filter (·.1 != ("DFLT", "dflt"))
+  let ls := a.scriptDefault.foldl (fun ls (script, l) =>
+    let sys : Sys := (script, "dflt")
+    let l := if a.defaults.contains sys then defaults ++ l else l
+    (ls.filter (·.1 != sys)) ++ [(sys, l)]) ls
+  a.defaults.foldl (fun ls sys => if ls.any (·.1 == sys) then ls else ls ++ [(sys, defaults)]) ls
+
+/-! ### the compilation context (compile_ctx.rs) -/
+
+structure St where
+  gsub : List OT.Lookup := []
+  gpos : List OT.Lookup := []
+  cur : Option (CFlag × Builder) := none
+  curName : Option String := none
+  named : List (String × LookupId) := []
+  flag : CFlag := (0, none)
+  attachIds : List (List Glyph) := []
+  filterIds : List (List Glyph) := []
+  langsys : List Sys := []
+  active : Option Active := none
+  script : Option Tag := none
+  /-- `AllFeatures::features`: `(feature, language, script)` ↦ lookups -/
+  features : List ((Tag × Tag × Tag) × List LookupId) := []
+  deriving Repr, Inhabited
+
+def St.defaultSystems (s : St) : List Sys := if s.langsys.isEmpty then [("DFLT", "dflt")] else s.langsys
+
+/-- `AllLookups::push` (lookups.rs:513): a contextual lookup is followed by its anonymous lookups -/
+def St.push (s : St) (f : CFlag) (b : Builder) : St × LookupId :=
+  match b with
+  | .chain _ anon =>
+    let id := LookupId.gsub s.gsub.length
+    ({ s with gsub := s.gsub ++ [buildLookup f b] ++ anon.map (buildAnonLookup f) }, id)
+  | _ =>
+    if b.kind.isPos then ({ s with gpos := s.gpos ++ [buildLookup f b] }, .gpos s.gpos.length)
+    else ({ s with gsub := s.gsub ++ [buildLookup f b] }, .gsub s.gsub.length)
+
+/-- `add_lookup_to_current_feature_if_present` -/
+def St.addToFeature (s : St) (id : LookupId) : St :=
+  match id, s.active with
+  | .empty, _ => s
+  | _, some a => { s with active := some (a.addLookup id) }
+  | _, none => s
+
+/-- `AllLookups::finish_current` (lookups.rs:731) -/
+def St.finishCurrent (s : St) : St × Option LookupId :=
+  match s.cur with
+  | some (f, b) =>
+    let (s, id) := { s with cur := none }.push f b
+    match s.curName with
+    | some n => ({ s with curName := none, named := (n, id) :: s.named }, some id)
+    | none => (s, some id)
+  | none =>
+    match s.curName with
+    | some n => ({ s with curName := none, named := (n, .empty) :: s.named }, some .empty)
+    | none => (s, none)
+
+def St.finishAndAdd (s : St) : St :=
+  match s.finishCurrent with
+  | (s, some id) => s.addToFeature id
+  | (s, none) => s
+
+def St.hasCurrentKind (s : St) (k : Kind) : Bool := (s.cur.map (·.2.kind)) == some k
+def St.hasSameFlags (s : St) : Bool := (s.cur.map (·.1)) == some s.flag
+
+/-- `ensure_current_lookup_type` with `AllLookups::start_lookup` -/
+def St.ensure (s : St) (k : Kind) : St :=
+  if s.hasCurrentKind k && s.hasSameFlags then s
+  else
+    let (s, finished) :=
+      match s.cur with
+      | some (f, b) => let (s, id) := { s with cur := none }.push f b; (s, some id)
+      | none => (s, none)
+    let s := { s with cur := some (s.flag, Builder.new k) }
+    match finished with
+    | some id => s.addToFeature id
+    | none => s
+
+/-- pairs of `zip(target.iter(), replacement.into_iter_for_target())` -/
+def singlePairs (t r : GC) : List (Glyph × Glyph) :=
+  match t, r with
+  | .g a, .g b => [(a, b)]
+  | .c as, .g b => as.map (·, b)
+  | .c as, .c bs => as.zip bs
+  | .g _, .c _ => []
+
+/-- cartesian enumeration, first position outermost (`sequence_enumerator`) -/
+def enumerate : List GC → List (List Glyph)
+  | [] => [[]]
+  | x :: rest => x.glyphs.flatMap fun g => (enumerate rest).map (g :: ·)
+
+/-- `validate_single_sub_inputs`: a one-glyph replacement class counts as a glyph -/
+def normSingle (t r : GC) : GC × GC :=
+  match t, r with
+  | .c as, .c [b] => (.c as, .g b)
+  | _, _ => (t, r)
+
+/-- Repairs of the defects found in the anonymous lookups of contextual rules.  All off (the
+    default) is fea-rs as it is; the driver switches them on to attribute a failure to a defect. -/
+structure Fixes where
+  /-- check every target of a class → glyph inline substitution, not only the first -/
+  anonSingle : Bool := false
+  /-- put all sequences of an inline ligature rule into one anonymous lookup -/
+  anonLig : Bool := false
+  /-- never pool two ligature sequences of which one is a proper prefix of the other -/
+  anonLigPrefix : Bool := false
+  deriving DecidableEq, Repr, Inhabited
+
+/-- `find_or_create_anon_lookup` (contextual.rs:131): the first usable anonymous lookup, else a new
+    one at the end; the id counts from the root lookup -/
+def findOrCreate (anon : List Anon) (usable : Anon → Bool) (fresh : Anon) : List Anon × Nat :=
+  match anon.findIdx? usable with
+  | some i => (anon, i)
+  | none => (anon ++ [fresh], anon.length)
+
+def modifyNth {α : Type} (f : α → α) : List α → Nat → List α
+  | [], _ => []
+  | x :: xs, 0 => f x :: xs
+  | x :: xs, n + 1 => x :: modifyNth f xs n
+
+/-- `add_anon_gsub_type_1` (contextual.rs:182).  The usability test zips the targets with
+    `replacement.iter()`, which yields a *single* element for a glyph replacement: for
+    `sub [a b]' by x` only `a` is checked, but all targets are inserted (overwriting). -/
+def anonAddSingle (fx : Fixes) (anon : List Anon) (t r : GC) : List Anon × Nat :=
+  let checked := if fx.anonSingle then singlePairs t r else t.glyphs.zip r.glyphs
+  let (anon, i) := findOrCreate anon
+    (fun a => match a with
+      | .single m => checked.all fun (a, b) => match m.lookup a with | some x => x == b | none => true
+      | _ => false)
+    (.single [])
+  (modifyNth (fun a => match a with
+    | .single m => .single ((singlePairs t r).foldl (fun m (a, b) => mapInsert a b m) m)
+    | a => a) anon i, i)
+
+def anonAddMultiple (anon : List Anon) (t : Glyph) (r : List Glyph) : List Anon × Nat :=
+  let (anon, i) := findOrCreate anon
+    (fun a => match a with
+      | .multiple m => (match m.lookup t with | some x => x == r | none => true)
+      | _ => false)
+    (.multiple [])
+  (modifyNth (fun a => match a with | .multiple m => .multiple (mapInsert t r m) | a => a) anon i, i)
+
+def isProperPrefix : List Glyph → List Glyph → Bool
+  | [], _ :: _ => true
+  | x :: xs, y :: ys => x == y && isProperPrefix xs ys
+  | _, _ => false
+
+/-- no sequence of the lookup is a proper prefix or a proper extension of `seq` -/
+def ligPrefixFree (m : LigMap) (seq : List Glyph) : Bool :=
+  match seq with
+  | [] => true
+  | first :: rest =>
+    match m.lookup first with
+    | some ligs => ligs.all fun (s, _) => !isProperPrefix s rest && !isProperPrefix rest s
+    | none => true
+
+def ligUsable (fx : Fixes) (m : LigMap) (seq : List Glyph) (r : Glyph) : Bool :=
+  ligCanAdd m seq r && (!fx.anonLigPrefix || ligPrefixFree m seq)
+
+def anonAddLigature (fx : Fixes) (anon : List Anon) (seq : List Glyph) (r : Glyph) : List Anon × Nat :=
+  let (anon, i) := findOrCreate anon
+    (fun a => match a with
+      | .ligature m => ligUsable fx m seq r
+      | _ => false)
+    (.ligature [])
+  (modifyNth (fun a => match a with | .ligature m => .ligature (ligInsert m seq r) | a => a) anon i, i)
+
+/-- repaired variant: one anonymous lookup that can take all the sequences -/
+def anonAddLigatures (fx : Fixes) (anon : List Anon) (seqs : List (List Glyph)) (r : Glyph) : List Anon × Nat :=
+  let (anon, i) := findOrCreate anon
+    (fun a => match a with
+      | .ligature m => seqs.all fun seq => ligUsable fx m seq r
+      | _ => false)
+    (.ligature [])
+  (modifyNth (fun a => match a with
+    | .ligature m => .ligature (seqs.foldl (fun m seq => ligInsert m seq r) m)
+    | a => a) anon i, i)
+
+/-- `ContextRule::try_merge` + `ContextBuilder::add` -/
+def addCRule (rules : List CRule) (r : CRule) : List CRule :=
+  match rules.getLast? with
+  | some last =>
+    match last.input, r.input with
+    | [(c1, l1)], [(c2, l2)] =>
+      if last.back == r.back && last.look == r.look && l1 == l2 then
+        rules.dropLast ++ [{ last with input := [(.c (c1.glyphs ++ c2.glyphs), l1)] }]
+      else rules ++ [r]
+    | _, _ => rules ++ [r]
+  | none => rules ++ [r]
+
+/-- the anonymous lookup of an inline rule (`add_contextual_sub`, compile_ctx.rs:803): its offset
+    among the anonymous lookups is the one returned by the *last* insertion -/
+def anonInline (fx : Fixes) (anon : List Anon) (input : List (GC × List String)) (inl : Inline) : List Anon × Option Nat :=
+  match inl, input with
+  | .none, _ => (anon, none)
+  | .lig r, _ =>
+    if fx.anonLig then
+      let (anon, i) := anonAddLigatures fx anon (enumerate (input.map (·.1))) r
+      (anon, some i)
+    else
+    (enumerate (input.map (·.1))).foldl (fun (anon, _) seq =>
+      let (anon, i) := anonAddLigature fx anon seq r
+      (anon, some i)) (anon, none)
+  | .single by_, (t, _) :: _ =>
+    let (t, by_) := normSingle t by_
+    let (anon, i) := anonAddSingle fx anon t by_
+    (anon, some i)
+  | .multi rs, (t, _) :: _ =>
+    t.glyphs.foldl (fun (anon, _) g =>
+      let (anon, i) := anonAddMultiple anon g rs
+      (anon, some i)) (anon, none)
+  | _, [] => (anon, none)
+
+/-- `ClassDefBuilder::can_add`: the class is present, or disjoint from all classes -/
+def classCanAdd (cd : List (List Glyph)) (c : List Glyph) : Bool :=
+  cd.contains c || c.all fun g => !(cd.any (·.contains g))
+
+/-- `ClassPairPosBuilder::insert` -/
+def classInsert (subs : List ClassSub) (c1 c2 : List Glyph) (v : Value) : List ClassSub :=
+  let add (s : ClassSub) : ClassSub :=
+    { items := (s.items.filter fun (a, b, _) => !(a == c1 && b == c2)) ++ [(c1, c2, v)],
+      cd1 := if s.cd1.contains c1 then s.cd1 else s.cd1 ++ [c1],
+      cd2 := if s.cd2.contains c2 then s.cd2 else s.cd2 ++ [c2] }
+  match subs.getLast? with
+  | some last =>
+    if classCanAdd last.cd1 c1 && classCanAdd last.cd2 c2 then subs.dropLast ++ [add last]
+    else subs ++ [add {}]
+  | none => [add {}]
+
+/-- What a rule adds to the current lookup once that lookup has the right type
+    (`add_gsub_type_*`, `add_contextual_rule`, `add_gpos_type_*` in lookups.rs; the bodies of
+    `add_single_sub` … `add_pair_pos` in compile_ctx.rs).  `root` is the index the lookup will get,
+    `named` resolves lookup names. -/
+def Builder.add (fx : Fixes) (root : Nat) (named : String → LookupId) (b : Builder) (r : Rule) : Builder :=
+  match b, r with
+  | .single m, .single t r =>
+    let (t, r) := normSingle t r
+    .single ((singlePairs t r).foldl (fun m (a, b) => mapInsert a b m) m)
+  | .multiple m, .single t r =>
+    let (t, r) := normSingle t r
+    .multiple ((singlePairs t r).foldl (fun m (a, b) => mapInsert a [b] m) m)
+  | .ligature m, .single t r =>
+    let (t, r) := normSingle t r
+    .ligature ((singlePairs t r).foldl (fun m (a, b) => if ligCanAdd m [a] b then ligInsert m [a] b else m) m)
+  | .multiple m, .multiple t r => .multiple (mapInsert t r m)
+  | .alternate m, .alternate t a => .alternate (mapInsert t a m)
+  | .ligature m, .ligature ts r =>
+    .ligature ((enumerate ts).foldl (fun m seq => if ligCanAdd m seq r then ligInsert m seq r else m) m)
+  | .chain rules anon, .chain back input look inl =>
+    let (anon, inlineIdx) := anonInline fx anon input inl
+    let ctx : List (GC × List LookupId) := input.zipIdx.map fun ((gc, refs), i) =>
+      (gc, (if i == 0 then (inlineIdx.map fun j => LookupId.gsub (root + j + 1)).toList else []) ++ refs.map named)
+    .chain (addCRule rules ⟨back.reverse, ctx, look⟩) anon
+  | .chain rules anon, .ignore alts =>
+    .chain (alts.foldl (fun rules (b, i, l) => addCRule rules ⟨b.reverse, i.map (·, []), l⟩) rules) anon
+  | .spos m, .spos t v => .spos (t.glyphs.foldl (fun m g => mapInsert g v m) m)
+  | .ppos pairs classes, .ppos enum a b v =>
+    if (a.isClass || b.isClass) && !enum then
+      .ppos pairs (classInsert classes (sortedSet a.glyphs) (sortedSet b.glyphs) v)
+    else
+      .ppos (a.glyphs.foldl (fun pairs g1 =>
+        b.glyphs.foldl (fun pairs g2 => mapUpdate g1 [] (mapInsertIfAbsent g2 v) pairs) pairs) pairs) classes
+  | b, _ => b
+
+def St.setBuilder (s : St) (b : Builder) : St :=
+  match s.cur with
+  | some (f, _) => { s with cur := some (f, b) }
+  | none => s
+
+/-- `promote_single_sub_to_multi_if_necessary` -/
+def St.promoteToMulti (s : St) : St :=
+  match s.cur with
+  | some (_, .single m) => s.setBuilder (.multiple (m.map fun (a, b) => (a, [b])))
+  | _ => s
+
+/-- `promote_single_sub_to_liga_if_necessary` -/
+def St.promoteToLiga (s : St) : St :=
+  match s.cur with
+  | some (_, .single m) => s.setBuilder (.ligature (m.map fun (a, b) => (a, [([], b)])))
+  | _ => s
+
+/-- Which lookup a rule goes to: `add_single_sub` keeps a current multiple / ligature lookup with
+    the same flags; the first multiple / ligature rule promotes a current single lookup
+    (`sub a by NULL;` goes straight to `ensure_current_lookup_type(GsubType2)`); everything else is
+    `ensure_current_lookup_type`. -/
+def St.prepare (s : St) : Rule → St
+  | .single .. =>
+    if (s.hasCurrentKind .multiple || s.hasCurrentKind .ligature) && s.hasSameFlags then s else s.ensure .single
+  | .multiple _ r => (if s.hasSameFlags && !r.isEmpty then s.promoteToMulti else s).ensure .multiple
+  | .ligature .. => (if s.hasSameFlags then s.promoteToLiga else s).ensure .ligature
+  | .alternate .. => s.ensure .alternate
+  | .chain .. => s.ensure .chain
+  | .ignore .. => s.ensure .chain
+  | .spos .. => s.ensure .spos
+  | .ppos .. => s.ensure .ppos
+
+def St.namedId (s : St) (n : String) : LookupId := (s.named.lookup n).getD .empty
+
+def St.addRule (fx : Fixes) (s : St) (r : Rule) : St :=
+  let s := s.prepare r
+  match s.cur with
+  | some (_, b) => s.setBuilder (b.add fx s.gsub.length s.namedId r)
+  | none => s
+
+/-- `set_lookup_flag` with `resolve_mark_attach_class` / `resolve_mark_filter_set` -/
+def St.setLookupFlag (s : St) (f : Flag) : St :=
+  let bits := (if f.rtl then 1 else 0) + (if f.ib then 2 else 0) + (if f.il then 4 else 0) + (if f.im then 8 else 0)
+  let (s, bits) :=
+    match f.attach with
+    | some c =>
+      let c := sortedSet c
+      match s.attachIds.idxOf? c with
+      | some i => (s, bits + 256 * (i + 1))
+      | none => ({ s with attachIds := s.attachIds ++ [c] }, bits + 256 * (s.attachIds.length + 1))
+    | none => (s, bits)
+  match f.filter with
+  | some c =>
+    let c := sortedSet c
+    match s.filterIds.idxOf? c with
+    | some i => { s with flag := (bits + 16, some i) }
+    | none => { s with filterIds := s.filterIds ++ [c], flag := (bits + 16, some s.filterIds.length) }
+  | none => { s with flag := (bits, none) }
+
+def St.clearFlags (s : St) : St := { s with flag := (0, none) }
+
+def St.blockStmt (fx : Fixes) (s : St) : BStmt → St
+  | .flag f => s.setLookupFlag f
+  | .rule r => s.addRule fx r
+
+/-- `resolve_lookup_block` = `start_lookup_block`, the statements, `end_lookup_block` -/
+def St.lookupBlock (fx : Fixes) (s : St) (name : String) (body : List BStmt) : St :=
+  let s := s.finishAndAdd
+  let s := if s.active.isNone then s.clearFlags else s
+  let s := { s with curName := some name }
+  let s := body.foldl (St.blockStmt fx) s
+  let (s, id) := s.finishCurrent
+  if s.active.isSome then (match id with | some id => s.addToFeature id | none => s) else s.clearFlags
+
+/-- `set_script_language` -/
+def St.setScriptLanguage (s : St) (sys : Sys) (excl : Bool) : St :=
+  let s := s.finishAndAdd
+  { s with active := s.active.map (·.setSystem sys excl) }
+
+def St.stmt (fx : Fixes) (s : St) : Stmt → St
+  | .script t =>
+    if (s.active.bind (·.curSys)) == some (t, "dflt") then s
+    else ({ s with script := some t }.clearFlags).setScriptLanguage (t, "dflt") false
+  | .language l excl => s.setScriptLanguage (s.script.getD "DFLT", l) excl
+  | .flag f => s.setLookupFlag f
+  | .rule r => s.addRule fx r
+  | .lookup n body => s.lookupBlock fx n body
+  | .ref n => s.addToFeature (s.namedId n)
+
+def padTag (t : Tag) : String := t ++ String.ofList (List.replicate (4 - t.length) ' ')
+def tagLt (a b : Tag) : Bool := padTag a < padTag b
+
+/-- `FeatureKey` order: feature, language, script -/
+def keyLt (a b : Tag × Tag × Tag) : Bool :=
+  tagLt a.1 b.1 || (a.1 == b.1 && (tagLt a.2.1 b.2.1 || (a.2.1 == b.2.1 && tagLt a.2.2 b.2.2)))
+
+def featInsert (k : Tag × Tag × Tag) (ls : List LookupId) :
+    List ((Tag × Tag × Tag) × List LookupId) → List ((Tag × Tag × Tag) × List LookupId)
+  | [] => [(k, ls)]
+  | (k', ls') :: rest =>
+    if keyLt k k' then (k, ls) :: (k', ls') :: rest
+    else if k == k' then (k', ls' ++ ls) :: rest
+    else (k', ls') :: featInsert k ls rest
+
+/-- `add_feature`: `start_feature`, the statements, `end_feature` -/
+def St.feature (fx : Fixes) (s : St) (tag : Tag) (body : List Stmt) : St :=
+  let s := { s with active := some { tag := tag, defaults := s.defaultSystems } }.clearFlags
+  let s := body.foldl (St.stmt fx) s
+  let s := s.finishAndAdd
+  let s := match s.active with
+    | some a =>
+      { s with features := a.finish.foldl (fun fs ((script, lang), ls) => featInsert (a.tag, lang, script) ls fs) s.features }
+    | none => s
+  { s with active := none, script := none }.clearFlags
+
+def St.top (fx : Fixes) (s : St) : Top → St
+  | .langsys sc l => { s with langsys := if s.langsys.contains (sc, l) then s.langsys else s.langsys ++ [(sc, l)] }
+  | .lookup n body => s.lookupBlock fx n body
+  | .feature tag body => s.feature fx tag body
+
+/-! ### `AllLookups::build` / `PosSubBuilder` (lookups.rs:972, 1359) -/
+
+def lookupIdxs (isPos : Bool) (ls : List LookupId) : List Nat :=
+  OT.sortDedup (ls.filterMap fun
+    | .gpos i => if isPos then some i else none
+    | .gsub i => if isPos then none else some i
+    | .empty => none)
+
+structure PSB where
+  features : List (Tag × List Nat) := []
+  scripts : List (Tag × List (Tag × List Nat)) := []
+
+def scriptInsert (script lang : Tag) (fi : Nat) : List (Tag × List (Tag × List Nat)) → List (Tag × List (Tag × List Nat))
+  | [] => [(script, [(lang, [fi])])]
+  | (s, langs) :: rest =>
+    if tagLt script s then (script, [(lang, [fi])]) :: (s, langs) :: rest
+    else if script == s then
+      let rec ins : List (Tag × List Nat) → List (Tag × List Nat)
+        | [] => [(lang, [fi])]
+        | (l, fs) :: more =>
+          if tagLt lang l then (lang, [fi]) :: (l, fs) :: more
+          else if lang == l then (l, fs ++ [fi]) :: more
+          else (l, fs) :: ins more
+      (s, ins langs) :: rest
+    else (s, langs) :: scriptInsert script lang fi rest
+
+def PSB.add (b : PSB) (key : Tag × Tag × Tag) (ls : List Nat) : PSB :=
+  let fk := (key.1, ls)
+  let (features, fi) :=
+    match b.features.idxOf? fk with
+    | some i => (b.features, i)
+    | none => (b.features ++ [fk], b.features.length)
+  { features := features, scripts := scriptInsert key.2.2 key.2.1 fi b.scripts }
+
+def buildTable (lookups : List OT.Lookup) (isPos : Bool) (features : List ((Tag × Tag × Tag) × List LookupId)) : OT.Table :=
+  let b := features.foldl (fun b (key, ls) =>
+    let idxs := lookupIdxs isPos ls
+    if idxs.isEmpty then b else b.add key idxs) ({} : PSB)
+  { lookups := lookups,
+    features := b.features,
+    scripts := b.scripts.map fun (s, langs) =>
+      { tag := s,
+        dflt := (langs.lookup "dflt").map fun fs => ⟨0xFFFF, fs⟩,
+        langs := (langs.filter (·.1 != "dflt")).map fun (l, fs) => (l, ⟨0xFFFF, fs⟩) } }
+
+def buildGdef (p : Program) (s : St) : OT.Gdef :=
+  { classes := (p.gdef.filter (·.2 != 0)).mergeSort (fun a b => a.1 ≤ b.1),
+    attach := (s.attachIds.zipIdx.flatMap fun (c, i) => c.map (·, i + 1)).mergeSort (fun a b => a.1 ≤ b.1),
+    sets := s.filterIds }
+
+end Cmp
+
+/-- the compiler with some of the defects repaired -/
+def compileWith (fx : Cmp.Fixes) (p : Program) : OT.Tables :=
+  let s := p.tops.foldl (Cmp.St.top fx) {}
+  { gsub := Cmp.buildTable s.gsub false s.features,
+    gpos := Cmp.buildTable s.gpos true s.features,
+    gdef := Cmp.buildGdef p s }
+
+/-! ## 6. The modelled subset
+
+  `Wf.violations p` lists (as stable words) every way in which `p` leaves the subset of the
+  feature-file language for which `compile_correct` is stated.  The words fall in three groups:
+  * constructs the real compiler rejects or that have no agreed meaning (`dup-target`, `dup-ligature`,
+    `bad-single-shape`, `mixed-kinds`, `pair-order`, …);
+  * constructs where fea-rs (like fontTools) deliberately builds something else than a rule-by-rule
+    reading gives (`mixed-run`: runs of single and multiple/ligature rules outside lookup blocks are
+    merged into one lookup; `pair-classes-overlap`: automatic subtable breaks);
+  * the three defects of the anonymous lookups (`anon-single-clobber`, `anon-lig-split`,
+    `anon-lig-prefix`): programs that are perfectly meaningful and are compiled wrongly. -/
+
+namespace Wf
+
+def distinct : List (List Glyph) → Bool
+  | [] => true
+  | x :: xs => !xs.contains x && distinct xs
+
+def strictlySorted : List Glyph → Bool
+  | a :: b :: rest => a < b && strictlySorted (b :: rest)
+  | _ => true
+
+def gcOk (x : GC) : Bool := !x.glyphs.isEmpty
+
+def ruleGCs : Rule → List GC
+  | .single t r => [t, r]
+  | .multiple .. => []
+  | .alternate .. => []
+  | .ligature ts _ => ts
+  | .chain b i l inl => b ++ i.map (·.1) ++ l ++ (match inl with | .single x => [x] | _ => [])
+  | .ignore alts => alts.flatMap fun (b, i, l) => b ++ i ++ l
+  | .spos t _ => [t]
+  | .ppos _ a b _ => [a, b]
+
+def singleShapeOk : Rule → Bool
+  | .single (.g _) (.c _) => false
+  | .single (.c ts) (.c xs) => xs.length == 1 || xs.length == ts.length
+  | _ => true
+
+/-- targets of the rules of a single / multiple / alternate / single-positioning lookup -/
+def targets : Rule → List Glyph
+  | .single t _ => t.glyphs
+  | .multiple t _ => [t]
+  | .alternate t _ => [t]
+  | .spos t _ => t.glyphs
+  | _ => []
+
+/-- component sequences of the rules of a ligature lookup -/
+def ligSeqs : Rule → List (List Glyph)
+  | .ligature ts _ => Cmp.enumerate ts
+  | .single t _ => t.glyphs.map ([·])
+  | _ => []
+
+def kindsOk (ks : List Kind) : Bool :=
+  match ks.eraseDups with
+  | [_] => true
+  | [a, b] => (a == .single && (b == .multiple || b == .ligature)) || (b == .single && (a == .multiple || a == .ligature))
+  | _ => false
+
+def setEqOrDisjoint (a b : List Glyph) : Bool :=
+  Cmp.sortedSet a == Cmp.sortedSet b || a.all fun g => !b.contains g
+
+def pairwise {α : Type} (f : α → α → Bool) : List α → Bool
+  | [] => true
+  | x :: xs => xs.all (f x) && pairwise f xs
+
+/-- inline replacements of the contextual rules of one lookup, in order -/
+def inlineSingles (rules : List Rule) : List (Bool × List (Glyph × Glyph)) :=
+  rules.filterMap fun
+    | .chain _ ((t, _) :: _) _ (.single by_) =>
+      let (t, by_) := Cmp.normSingle t by_
+      some (t.isClass && !by_.isClass, Cmp.singlePairs t by_)
+    | _ => none
+
+def inlineLigs (rules : List Rule) : List (List Glyph × Glyph) :=
+  rules.flatMap fun
+    | .chain _ input _ (.lig r) => (Cmp.enumerate (input.map (·.1))).map (·, r)
+    | _ => []
+
+/-- a class → glyph inline substitution must agree with every earlier inline substitution of the
+    lookup on the glyphs they share (only its first glyph is checked by fea-rs) -/
+def anonSingleOk : List (Bool × List (Glyph × Glyph)) → List (Glyph × Glyph) → Bool
+  | [], _ => true
+  | (classToGlyph, pairs) :: rest, earlier =>
+    (!classToGlyph || pairs.all fun (a, b) => earlier.all fun (a', b') => a != a' || b == b')
+    && anonSingleOk rest (earlier ++ pairs)
+
+def lookupViolations (known : String → Option Src.Lookup) (l : Src.Lookup) : List String :=
+  let rules := l.rules
+  let kinds := rules.map Rule.kind
+  let fam := l.kind
+  (if rules.isEmpty then ["empty-lookup"] else []) ++
+  (if kindsOk kinds then [] else ["mixed-kinds"]) ++
+  (if kinds.contains .single && rules.any (fun | .multiple _ [] => true | _ => false) then ["delete-after-single"] else []) ++
+  (if rules.all singleShapeOk then [] else ["bad-single-shape"]) ++
+  (if (rules.flatMap ruleGCs).all gcOk then [] else ["empty-class"]) ++
+  (if l.isLig then
+     (if distinct (rules.flatMap ligSeqs) then [] else ["dup-ligature"]) ++
+     (if rules.all (fun | .ligature ts _ => ts.length ≥ 2 | _ => true) then [] else ["short-ligature"])
+   else if fam == .ppos then
+     let cls := rules.filter (!Src.isGlyphPair ·)
+     (if rules.zipIdx.all (fun (r, i) => !Src.isGlyphPair r || (rules.take i).all Src.isGlyphPair) then [] else ["pair-order"]) ++
+     (if pairwise setEqOrDisjoint (cls.filterMap fun | .ppos _ a _ _ => some a.glyphs | _ => none)
+        && pairwise setEqOrDisjoint (cls.filterMap fun | .ppos _ _ b _ => some b.glyphs | _ => none) then [] else ["pair-classes-overlap"]) ++
+     (if distinct (cls.filterMap fun | .ppos _ a b _ => some (Cmp.sortedSet a.glyphs ++ [0] ++ Cmp.sortedSet b.glyphs) | _ => none) then [] else ["dup-class-pair"])
+   else if fam == .chain then
+     (if (rules.flatMap Src.ctxRules).all (!·.input.isEmpty) then [] else ["chain-empty-input"]) ++
+     (if rules.all (fun
+        | .chain _ input _ inl =>
+          (match inl with
+           | .none => true
+           | .single by_ => input.length == 1 && (match input.head? with | some (t, _) => singleShapeOk (.single t by_) | none => false)
+           | .lig _ => input.length ≥ 2
+           | .multi _ => (match input with | [(.g _, _)] => true | _ => false))
+          && (inl == .none || input.all (·.2.isEmpty))
+        | _ => true) then [] else ["bad-inline"]) ++
+     (if rules.all (fun
+        | .chain _ input _ _ => input.all fun (_, refs) => refs.all fun n =>
+            match known n with
+            | some t => !t.isChain && !t.isPos
+            | none => false
+        | _ => true) then [] else ["nested-unknown"]) ++
+     (if anonSingleOk (inlineSingles rules) [] then [] else ["anon-single-clobber"]) ++
+     (let ligs := inlineLigs rules
+      (if pairwise (fun (a : List Glyph × Glyph) b => a.1 != b.1 || a.2 == b.2) ligs then [] else ["anon-lig-split"]) ++
+      (if pairwise (fun (a : List Glyph × Glyph) b => !Cmp.isProperPrefix a.1 b.1 && !Cmp.isProperPrefix b.1 a.1) ligs then [] else ["anon-lig-prefix"]))
+   else
+     (if distinct ((rules.flatMap targets).map ([·])) then [] else ["dup-target"]))
+
+def flagsOf (tops : List Top) : List Flag :=
+  let bf (b : List BStmt) : List Flag := b.filterMap fun | .flag f => some f | _ => none
+  tops.flatMap fun
+    | .lookup _ b => bf b
+    | .feature _ b => b.flatMap fun
+      | .flag f => [f]
+      | .lookup _ b => bf b
+      | _ => []
+    | _ => []
+
+def mixes (a b : Kind) : Bool :=
+  (a == .single && (b == .multiple || b == .ligature)) || (b == .single && (a == .multiple || a == .ligature))
+
+/-- a single rule next to a multiple / ligature rule in one run (same flag, nothing between them
+    that ends a run) -/
+def mixedRun : Flag → Option (Flag × Kind) → List Stmt → Bool
+  | _, _, [] => false
+  | _, _, .script _ :: rest => mixedRun {} none rest
+  | f, _, .language .. :: rest => mixedRun f none rest
+  | _, cur, .flag f :: rest => mixedRun f cur rest
+  | f, _, .lookup _ body :: rest => mixedRun (Src.blockFlagAfter f body) none rest
+  | f, cur, .ref _ :: rest => mixedRun f cur rest
+  | f, cur, .rule r :: rest =>
+    (match cur with
+     | some (f', k) => f' == f && mixes k r.kind
+     | none => false) || mixedRun f (some (f, r.kind)) rest
+
+def blockFlagMid : Bool → Bool → List BStmt → Bool
+  | _, _, [] => false
+  | seenRule, _, .flag _ :: rest => blockFlagMid seenRule seenRule rest
+  | _, flagAfterRule, .rule _ :: rest => flagAfterRule || blockFlagMid true false rest
+
+def scriptLangViolations (langsys : List (Tag × Tag)) (body : List Stmt) : List String :=
+  let scripts := body.filterMap fun | .script s => some s | _ => none
+  let stmts := Src.langStmts none body
+  (if distinct (scripts.map fun s => s.toList.map Char.toNat) then [] else ["script-twice"]) ++
+  (if distinct (stmts.map fun (s, l, _) => (s ++ "/" ++ l).toList.map Char.toNat) then [] else ["language-twice"]) ++
+  (if stmts.any (fun (_, l, _) => l == "dflt") then ["language-dflt"] else []) ++
+  (if (body.takeWhile fun | .script _ => false | _ => true).any (fun | .language .. => true | _ => false) then ["language-before-script"] else []) ++
+  (if scripts.all (fun s => langsys.contains (s, "dflt")) && stmts.all (fun (s, l, _) => langsys.contains (s, l)) then [] else ["langsys-missing"])
+
+def specialTags : List Tag := ["aalt", "size", "vkrn", "vpal", "vhal", "valt"]
+
+def violations (p : Program) : List String :=
+  let es := Src.entries p
+  let langsys := Src.langsysOf p.tops
+  let names := p.tops.flatMap fun
+    | .lookup n _ => [n]
+    | .feature _ b => b.filterMap fun | .lookup n _ => some n | _ => none
+    | _ => []
+  let flags := flagsOf p.tops
+  let attach := flags.filterMap (·.attach)
+  let perLookup := es.zipIdx.flatMap fun (e, i) =>
+    lookupViolations (fun n => ((es.take i).find? fun e' => e'.lookup.name == some n).map (·.lookup)) e.lookup
+  let perFeature := p.tops.flatMap fun
+    | .feature tag body =>
+      (if mixedRun {} none body then ["mixed-run"] else []) ++ scriptLangViolations langsys body ++
+      (if specialTags.contains tag then ["special-feature-tag"] else []) ++
+      (if body.any (fun | .lookup _ b => blockFlagMid false false b | _ => false) then ["block-flag-mid"] else [])
+    | .lookup _ b => if blockFlagMid false false b then ["block-flag-mid"] else []
+    | _ => []
+  let refsOk : Bool :=
+    let rec go (defined : List String) : List Top → Bool
+      | [] => true
+      | .lookup n _ :: rest => go (n :: defined) rest
+      | .langsys .. :: rest => go defined rest
+      | .feature _ body :: rest =>
+        let rec goBody (defined : List String) : List Stmt → Bool × List String
+          | [] => (true, defined)
+          | .ref n :: more => if defined.contains n then goBody defined more else (false, defined)
+          | .lookup n _ :: more => goBody (n :: defined) more
+          | _ :: more => goBody defined more
+        let (ok, defined) := goBody defined body
+        ok && go defined rest
+    go [] p.tops
+  (perLookup ++ perFeature ++
+   (if distinct (names.map fun n => n.toList.map Char.toNat) then [] else ["dup-lookup-name"]) ++
+   (if refsOk then [] else ["ref-undefined"]) ++
+   (if distinct (p.gdef.map fun x => [x.1]) then [] else ["gdef-dup"]) ++
+   (if pairwise setEqOrDisjoint attach then [] else ["attach-overlap"]) ++
+   (if flags.all (fun f => (f.attach.map strictlySorted).getD true && (f.filter.map strictlySorted).getD true) then [] else ["flag-unsorted"]) ++
+   (if (p.tops.dropWhile fun | .langsys .. => true | _ => false).any (fun | .langsys .. => true | _ => false) then ["langsys-late"] else [])).eraseDups
+
+def ok (p : Program) : Bool := (violations p).isEmpty
+
+end Wf
+
+/-- Does some feature register a lookup of the table (`isPos`: GPOS) for the language system?  A
+    language system for which nothing is registered has no record in the table: a client then
+    falls back to the script's default language system. -/
+def Src.registersAny (p : Program) (isPos : Bool) (script lang : Tag) : Bool :=
+  (Src.entries p).any fun e => e.lookup.isPos == isPos && e.regs.any fun (_, s, l) => s == script && l == lang
+
+/-- **The compiler** (fea-rs as it is). -/
+def compile (p : Program) : OT.Tables := compileWith {} p
 
 end Fontc.FeaCompile
